@@ -203,11 +203,11 @@ def run_direct(ctx):
                     await op(st)
                     st['mark']('end')
 
-            async def feeder():
-                # two messages arrive while the channel consumer waits, both before its next turn
+            async def feeder(m):
+                # two producers put in the same time step, both before the woken consumer's next turn: the consumer
+                # then finds two buffered messages
                 await (usim.time + 1)
-                await st['chan'].put(1)
-                await st['chan'].put(2)
+                await st['chan'].put(m)
 
             async def spinner(i):
                 await (usim.time + 1)
@@ -220,7 +220,7 @@ def run_direct(ctx):
                 # the consumer must already be subscribed when the messages arrive
                 async def early_consumer():
                     await chan_iter_buffered(st)
-                acts = [setup(), early_consumer(), feeder()] + [spinner(i) for i in range(k)]
+                acts = [setup(), early_consumer(), feeder(1), feeder(2)] + [spinner(i) for i in range(k)]
             try:
                 usim.run(*acts)
             except BaseException as e:
